@@ -773,7 +773,7 @@ def run_c10(ctx):
     configs.append(('mesh', _consts(ctx.pick(1, 2), 1, 1, 2, 2, True, kinds=('mesh',),
                                     shapes=ctx.pick([(1, 1, 2), (1, 2, 1), (2, 1, 1), (2, 2, 2)], SHAPES[1:]))))
     # a mesh response next to a volume response (attribution), either one first
-    configs.append(('mesh-and-volume', _consts(1, 2, 1, ctx.pick(1, 2), ctx.pick(1, 2), True, kinds=('vol', 'mesh'), shapes=[(1, 2, 2)])))
+    configs.append(('mesh-and-volume', _consts(1, 2, 1, 1, ctx.pick(1, 2), True, kinds=('vol', 'mesh'), shapes=[(1, 2, 2)])))
     # all TLC runs on T4Doc.tla (enumerations and witnesses) and the witnesses of Ap3File.tla are independent: in parallel
     from concurrent.futures import ThreadPoolExecutor
     tasks = []
